@@ -20,6 +20,7 @@ import (
 	"strconv"
 	"strings"
 	"sync"
+	"sync/atomic"
 	"time"
 
 	"github.com/miekg/dns"
@@ -37,6 +38,9 @@ const (
 
 var debug = os.Getenv("C07_DEBUG") != ""
 
+// sampled: the first delivered attack of this process became an evidence sample.
+var sampled atomic.Bool
+
 // CaseSpec is the serialisable replay case: (seed, index) regenerate
 // everything else; the remaining fields document what was generated/observed.
 type CaseSpec struct {
@@ -52,6 +56,7 @@ type CaseSpec struct {
 	Label   string    `json:"label"`
 	World   WorldSpec `json:"world"`
 
+	Script   []string `json:"evil_messages,omitempty"` // what the evil servers actually built (first few)
 	Phase    string   `json:"phase,omitempty"`
 	Query    string   `json:"query,omitempty"`
 	Reply    string   `json:"reply,omitempty"`
@@ -179,6 +184,7 @@ func (cr *caseRun) violation(sig, what, phase string, q question, reply *dns.Msg
 	if reply != nil {
 		c.Reply = reply.String()
 	}
+	c.Script = cr.w.sentSummaries()
 	for _, p := range cr.w.u.Log.Since(from) {
 		if len(c.Upstream) < 60 {
 			c.Upstream = append(c.Upstream, p.String())
@@ -215,6 +221,10 @@ func (cr *caseRun) judgeTrigger(phase string, q question, reply *dns.Msg, from i
 	switch {
 	case a != nil && cr.c.Family == "spoof":
 		cr.violation(vlib.Sig("spoof-accepted", cr.c.Kind, cls), "a datagram with the wrong id/question (evil-marked) was accepted as the reply: "+a.String(), phase, q, reply, from)
+	case a != nil && reply.AuthenticatedData:
+		// kept apart from the unauthenticated relay so that a known-finding
+		// entry for the latter can never hide attacker data served with AD=1
+		cr.violation(vlib.Sig("evil-in-authenticated-answer", cr.c.Kind, cls), "an out-of-zone record sent by the server of "+zEvil+" is in the client's answer section of a reply with AD=1: "+a.String(), phase, q, reply, from)
 	case a != nil:
 		cr.violation(vlib.Sig("evil-in-answer", cr.c.Kind, cls), "an out-of-zone record sent by the server of "+zEvil+" is in the client's answer section: "+a.String(), phase, q, reply, from)
 	case (n != nil || e != nil) && len(reply.Answer) > 0:
@@ -229,6 +239,18 @@ func (cr *caseRun) judgeTrigger(phase string, q question, reply *dns.Msg, from i
 		r.Count("evil_marker_in_aux_of_negative_trigger_reply", 1)
 	default:
 		r.Count("trigger_replies_clean/"+phaseClass(phase), 1)
+	}
+	if cr.c.Family == "answer" && phase == "attack" {
+		// where the foreign answer records went, per DNSSEC mode and CD (evidence
+		// for FINDINGS.md #1; no verdict)
+		out := "dropped"
+		switch {
+		case a != nil:
+			out = "relayed"
+		case reply.Rcode == dns.RcodeServerFailure:
+			out = "servfail"
+		}
+		r.Count(fmt.Sprintf("foreign_answer_records/%s/cd=%v/%s", cr.c.World.Mode, q.CD, out), 1)
 	}
 	switch reply.Rcode {
 	case dns.RcodeServerFailure:
@@ -309,13 +331,14 @@ func (cr *caseRun) victimRound(phase string) {
 	cr.sinkCheck(phase)
 }
 
-func (cr *caseRun) triggerRound(phase string) {
+func (cr *caseRun) triggerRound(phase string) (question, *dns.Msg) {
 	name, t := cr.c.trigger()
 	q := randFlags(cr.rng, name, t)
 	reply, from := cr.ask(q)
 	cr.judgeTrigger(phase, q, reply, from)
 	cr.dbg(phase, q, reply, from)
 	cr.sinkCheck(phase)
+	return q, reply
 }
 
 func (cr *caseRun) dbg(phase string, q question, reply *dns.Msg, from int) {
@@ -342,6 +365,7 @@ func (cr *caseRun) dbg(phase string, q question, reply *dns.Msg, from int) {
 func (cr *caseRun) sinkCheck(phase string) {
 	hits := cr.w.u.Log.SinkHits(cr.sinkAt)
 	cr.sinkAt = cr.w.u.Log.Len()
+	cr.r.Count("sink_checks", 1)
 	if len(hits) == 0 {
 		return
 	}
@@ -411,11 +435,12 @@ func runCase(r *vlib.Run, c *CaseSpec) {
 	if c.World.Warm {
 		cr.victimRound("warm")
 	}
+	var sample map[string]any
 
 	// ---- the attack ---------------------------------------------------------
 	k.Install(w, c)
 	from := w.u.Log.Len()
-	cr.triggerRound("attack")
+	attackQ, attackReply := cr.triggerRound("attack")
 	delivered := cr.delivered(from)
 	r.Count("evil_server_packets", w.u.Log.Count(from, "evil1", "", 0)+w.u.Log.Count(from, "evil2", "", 0))
 	if delivered == 0 {
@@ -428,15 +453,38 @@ func runCase(r *vlib.Run, c *CaseSpec) {
 		r.Count("delivered_family/"+c.Family, 1)
 		r.Distinct(c.Kind + "|" + c.Variant + "|" + c.World.Mode + "|" + c.Target + "|" + strconv.Itoa(c.World.QMin))
 		r.DistinctIn("kind_variant", c.Kind+"|"+c.Variant)
-		if c.Index%23 == 0 {
-			r.Sample(map[string]any{"index": c.Index, "kind": c.Kind, "variant": c.Variant, "world": c.World.String(), "attack_responses_delivered": delivered})
+		if sampled.CompareAndSwap(false, true) {
+			// one real case per process (the parent keeps the first six): the
+			// attack script as executed, the client question and what came back
+			var up []string
+			for _, p := range w.u.Log.Since(from) {
+				if len(up) < 12 {
+					up = append(up, fmt.Sprintf("%s/%s %s %s action=%s %s", p.Server, p.Transport, p.QNameL, dns.TypeToString[p.QType], p.Action, p.Outcome))
+				}
+			}
+			sample = map[string]any{
+				"index": c.Index, "kind": c.Kind, "variant": c.Variant, "world": c.World.String(), "glue_target": c.Target,
+				"attack_script":              c.Label,
+				"evil_messages_built":        w.sentSummaries(),
+				"attack_responses_delivered": delivered,
+				"client_query":               attackQ.String(),
+				"client_reply":               summarize(attackReply),
+				"upstream_packets_during_attack": up,
+				"sink_packets":               len(w.u.Log.SinkHits(cr.started)),
+			}
 		}
 	}
 
 	// ---- the attacker goes quiet: whatever shows up now comes from state -----
 	w.clearScripts()
-	cr.triggerRound("after-attack/repeat")
+	_, repeatReply := cr.triggerRound("after-attack/repeat")
+	truthBefore := r.Counter("victim_truth/now")
 	cr.victimRound("after-attack")
+	if sample != nil {
+		sample["repeat_reply_after_attacker_went_quiet"] = summarize(repeatReply)
+		sample["victim_replies_equal_to_truth_after_attack"] = fmt.Sprintf("%d of %d", r.Counter("victim_truth/now")-truthBefore, len(victimQuestions))
+		r.Sample(sample)
+	}
 
 	// ---- later: answers expired, delegations still leased ---------------------
 	if cr.advance(70 * time.Second) {
@@ -540,5 +588,9 @@ func main() {
 	r.Require("victim_truth/later", int64(nCases*len(victimQuestions)))
 	r.Require("virtual_time_advances", int64(nCases*2*9/10))
 	r.Require("cases_with_silent_sink", 1)
+	r.Require("sink_checks", int64(nCases*5))
+	for _, f := range []string{"spoof", "answer", "authority", "referral", "glue"} {
+		r.Require("delivered_family/"+f, int64(rounds))
+	}
 	r.Finish(rule)
 }
